@@ -396,7 +396,9 @@ ForeignCoinbaseKey(k) ==
   /\ k \in DOMAIN st.w["w1"].outs
   /\ AdvCount < MaxAdv
   /\ LET r == BuildCoinbase(st, "w1", [fees |-> 0, h |-> Height(st) + 1, key |-> k]) IN
-     Upd(LastOf(r.steps), hv, AdvMark, [ev |-> "build_coinbase", w |-> "w1", key |-> k, h |-> Height(st) + 1, fees |-> 0])
+     \* (kcls: what kind of record the request names - a class of situations to cover when behaviours are selected)
+     Upd(LastOf(r.steps), hv, AdvMark, [ev |-> "build_coinbase", w |-> "w1", key |-> k, h |-> Height(st) + 1, fees |-> 0,
+                                       kcls |-> st.w["w1"].outs[k].st \o (IF st.w["w1"].outs[k].cb THEN ":cb" ELSE ":plain")])
 \* the victim's own S1 slate is delivered to its own foreign receive
 ForeignReceiveOwn(sl) == AdvCount < MaxAdv /\ ReceiveAct("w1", sl)
 
